@@ -85,6 +85,10 @@ CHECKS["C04"] = dict(engine="wire", cat="exploration",
    text="server scripts = words over a 33-letter alphabet (stream headers with/without version and id, 8 feature sets with starttls optional/required/absent + SASL, SASL2+FAST, legacy auth, bind, sm; <proceed/>, TLS <failure/>, legacy-auth field offers, IQ gets/results, <r/>, unsolicited <success/>/<challenge/>, message, presence, stream errors, see-other-host with/without close): exhaustive to length 3 (quick) / 4 (thorough) over a 16-letter core x 3-7 client configurations with TLSRequired, random words to length 10, scripts that authenticate over real TLS and are then redirected to a plain endpoint, and positive-control scripts where the fake server really completes STARTTLS (committed test certificate); the server's plaintext transcript is classified element by element (stanzas, SASL/SASL2 elements, bind, legacy auth) and searched for the configured secrets in their encodings; when the last server action makes encryption impossible the client must end disconnected",
    note="TLS itself (OpenSSL through Qt) is trusted; nonzas other than SASL elements sent in clear are recorded, not judged; 'gives up' is judged only when the deciding event is the server's last action on a well-formed stream",
    tech="runtime monitoring: transcript classifier + secret search over the bytes a hostile scripted server receives before TLS, with a real-TLS positive control, under ASan/UBSan")
+CHECKS["C19"] = dict(engine="wire", cat="fault_enumeration",
+   text="in-band file transfers between two real clients with QXmppTransferManager relayed by the fake server: sizes {0,1,b-1,b,b+1,2b,3b+5} x block sizes {1,7,4096} x contents {zeros, random, all byte values}, with and without announced hash, transfers of more than 65536 blocks (16-bit counter wrap), and every single fault (drop, duplicate, swap with next, bit flip, early close, wrong session id, wrong sender, wrong sequence number) at every block position of short transfers (thorough: more sizes and 3000 random faults); oracle: receiver reports success only with byte-identical content, fault-free transfers succeed on both sides",
+   note="block sizes other than 4096 use the QXMPP_VERIF_HOOKS setter; SOCKS5 bytestreams are not exercised; a fault that leaves the received bytes intact (e.g. a rejected duplicate) may still end in success",
+   tech="runtime monitoring: single-fault injection in a relaying server with byte comparison of the receiver's device against the sent content, under ASan/UBSan")
 REASON_TODO = "check not built yet in this session (planned, see DESIGN.md §2)"
 
 def main():
